@@ -150,6 +150,12 @@ class FakeSelene:
                   event_hook=None, verbose=False, timeout=None, results_logfile=None,
                   random_seed=None, shot_offset=0, shot_increment=1, n_processes=1, **kw):
         self.calls += 1
+        # what the configuration hands to the back end (its behaviour at the boundary)
+        self.last_args = {"n_qubits": n_qubits, "shots": n_shots, "seed": random_seed,
+                          "shot_offset": shot_offset, "shot_increment": shot_increment,
+                          "n_processes": n_processes, "timeout": timeout, "verbose": verbose,
+                          "sim": spec_of(simulator), "runtime": spec_of(runtime),
+                          "error_model": spec_of(error_model)}
         res = fake_results(self.panics, spec_of(simulator), spec_of(error_model),
                            spec_of(runtime), random_seed, n_qubits, n_shots, shot_offset,
                            shot_increment)
@@ -157,6 +163,11 @@ class FakeSelene:
         fail_at, self.fail_at = self.fail_at, None
 
         def shot_iter(i, bits, err):
+            if fail_at == -1 and i == 0:
+                # selene could not start its worker processes: raised while the first shot
+                # is being read, before any entry
+                from selene_sim.exceptions import SeleneStartupError
+                raise SeleneStartupError("transient: could not start the emulator processes", "", "")
             if i == fail_at:
                 yield from bits[:1]
                 raise RuntimeError("transient: emulator process lost")
@@ -254,7 +265,8 @@ def run_case(ch: Choices, params: dict) -> dict:
     panics = ch.draw(4, "program") == 0
     faults = {"aliased_simulator": 0, "failing_run": 0, "preseeded_user_object": 0,
               "transient_run_failure": 0}
-    probes = {"sibling_with_seed_on_shared_sim": 0, "run_between_derivations": 0,
+    probes = {"backend_args_compared": 0,
+              "sibling_with_seed_on_shared_sim": 0, "run_between_derivations": 0,
               "n_processes=2_run": 0, "rerun_of_seeded_handle": 0, "builder_ops": 0,
               "seeded_runs_compared": 0}
     if real:
@@ -450,6 +462,8 @@ def run_case(ch: Choices, params: dict) -> dict:
                 transient = None
                 if not real and ch.draw(6, "transient_fault") == 0:
                     transient = ch.draw(max(rec["shots"], 1), "transient_shot")
+                    if ch.draw(3, "startup_failure") == 0:
+                        transient = -1          # the back end cannot start at all
                     inst.fail_at = transient
                     faults["transient_run_failure"] += 1
                 got = run_handle(h)
@@ -470,6 +484,17 @@ def run_case(ch: Choices, params: dict) -> dict:
                     log.add("run-transient", names[i], transient, got["error"])
                     check_all("run", None)
                     continue
+                if not real:
+                    args = getattr(inst, "last_args", None)
+                    want_args = {k2: rec[k2] for k2 in ("n_qubits", "shots", "seed", "shot_offset",
+                                                        "shot_increment", "n_processes", "timeout",
+                                                        "verbose", "sim", "runtime", "error_model")}
+                    if args is not None and args != want_args:
+                        field = next(k2 for k2 in want_args if args.get(k2) != want_args[k2])
+                        violation("BACKEND_ARGS", {"culprit_op": "run", "field": field},
+                                  {f"{names[i]}.run() passes {field}": want_args[field]},
+                                  {f"{names[i]}.run() passes {field}": args.get(field)})
+                    probes["backend_args_compared"] += 1
                 if got["error"]:
                     faults["failing_run"] += 1
                 if rec["n_processes"] == 2:
